@@ -25,11 +25,13 @@ from vlib.common import run as sh
 
 PID = "C16"
 # A hexahedron whose diagonally opposite vertices are identified (six proper quads, closed, 7 distinct
-# vertices) passes the topology check of add_cell; "every cell has eight distinct vertices" then fails
-# literally.  The property quantifies over blocks of hexahedra; whether such a list is a "valid list" is a
-# judgement call (findings/C16-pinched-hex.md).  False: counted in the evidence; True: reported as a
-# violation with signature "C16:pinched-accepted" (pair it with a known_findings.json entry).
-PINCHED_IN_SCOPE = False
+# vertices) used to pass the topology check of add_cell (findings/C16-pinched-hex.md, C16J).  Since 7b999c9 the
+# override rejects six quads that do not span exactly eight distinct vertices (model: `spanVertCount` guard in
+# hexAddCell; Lean: `pinched_rejected`, `checked_add_cell_eight_distinct`), so the driver's `pinched` stream must
+# only see rejections.  True: a live cell of six proper quads with fewer than eight distinct vertices in the
+# implementation's own output (judge tag C16J) is a violation with signature "C16:pinched-accepted" (the
+# known_findings.json entry C16J is of kind "fixed").  False: only counted in the evidence.
+PINCHED_IN_SCOPE = True
 
 # abs_C16: on the construction operations everything is compared (a rejected call must leave every field
 # unchanged); on deletions, garbage collection, swaps and mode switches C16 only speaks about the
